@@ -349,6 +349,10 @@ class Evaluator(object):
             return a if cond.b else b
         if same(a, b):
             return a
+        if isinstance(a, CallV) and isinstance(b, Rat):
+            a = a.rat
+        if isinstance(b, CallV) and isinstance(a, Rat):
+            b = b.rat
         if isinstance(a, Rat) and isinstance(b, Rat):
             return alg.opaque('ite', (cond, a, b))
         if isinstance(a, Tup) and isinstance(b, Tup) and len(a.items) == len(b.items):
